@@ -35,12 +35,11 @@ theorem b64_index_in_table (b : Nat) (h : base64GuardRejects b = false) :
 
 /-! ### bit identities of the 4 -> 3 regrouping (small domains) -/
 theorem b64_byte0 : ∀ a, a < 256 → ∀ h, h < 16 →
-    (((a / 4) <<< 2) &&& 0xFF) ||| (((a % 4 * 16 + h) >>> 4) &&& 0x3) = a := by decide +kernel
+    b64Set0 (a / 4) ||| b64Or1 (a % 4 * 16 + h) = a := by decide +kernel
 theorem b64_byte1 : ∀ a2, a2 < 4 → ∀ b, b < 256 → ∀ c2, c2 < 4 →
-    (((a2 * 16 + b / 16) &&& 0xF) <<< 4) ||| (((b % 16 * 4 + c2) >>> 2) &&& 0xF) = b := by decide +kernel
+    b64Set1 (a2 * 16 + b / 16) ||| b64Or2 (b % 16 * 4 + c2) = b := by decide +kernel
 theorem b64_byte2 : ∀ b4, b4 < 16 → ∀ c, c < 256 →
-    (((b4 * 4 + c / 64) &&& 0x3) <<< 6) ||| (c % 64) = c := by decide +kernel
-
+    b64Set2 (b4 * 4 + c / 64) ||| b64Or3 (c % 64) = c := by decide +kernel
 
 /-! ### the loop of fromBase64 -/
 theorem take_succ_set {l : List Nat} {j v : Nat} (h : j < l.length) :
@@ -55,6 +54,7 @@ theorem rd_set_self {out : List Nat} {j v : Nat} (h : j < out.length) : rd (out.
   unfold rd; rw [List.getElem?_set_self h]
 
 theorem and3 (i : Nat) : i &&& 3 = i % 4 := Nat.and_two_pow_sub_one_eq_mod i 2
+theorem phase_eq (i : Nat) : b64Phase i = i % 4 := and3 i
 
 theorem b64Loop_alpha (v : Nat) (rest : List Nat) (i j : Nat) (out : List Nat) (hv : v < 64) :
     b64Loop (Spec.b64Char v :: rest) i j out =
@@ -67,30 +67,30 @@ theorem b64Loop_pad (rest : List Nat) (i j : Nat) (out : List Nat) :
   rw [b64Loop, b64_guard_pad, if_neg Bool.false_ne_true, b64_table_pad, Res.bind_ok, if_pos rfl, if_pos b64_pad_eq.symm]
 
 theorem sw0 (i c j : Nat) (out : List Nat) (hi : i % 4 = 0) (hj : j < out.length) :
-    b64Switch i c j out = .ok (j, out.set j ((c <<< 2) &&& 0xFF)) := by
+    b64Switch i c j out = .ok (j, out.set j (b64Set0 c)) := by
   unfold b64Switch
-  rw [and3, if_pos hi, wr_ok hj]; rfl
+  rw [phase_eq, if_pos hi, wr_ok hj]; rfl
 
 theorem sw1 (i c j x : Nat) (out : List Nat) (hi : i % 4 = 1) (hj : j + 1 < out.length) :
     b64Switch i c j (out.set j x) =
-      .ok (j + 1, (out.set j (x ||| ((c >>> 4) &&& 0x3))).set (j + 1) ((c &&& 0xF) <<< 4)) := by
+      .ok (j + 1, (out.set j (x ||| b64Or1 c)).set (j + 1) (b64Set1 c)) := by
   unfold b64Switch
-  rw [and3, if_neg (by omega), if_pos hi, rd_set_self (by omega), Res.bind_ok,
+  rw [phase_eq, if_neg (by omega), if_pos hi, rd_set_self (by omega), Res.bind_ok,
     wr_ok (by rw [List.length_set]; omega), Res.bind_ok, List.set_set,
     wr_ok (by rw [List.length_set]; omega)]; rfl
 
 theorem sw2 (i c j x : Nat) (out : List Nat) (hi : i % 4 = 2) (hj : j + 1 < out.length) :
     b64Switch i c j (out.set j x) =
-      .ok (j + 1, (out.set j (x ||| ((c >>> 2) &&& 0xF))).set (j + 1) ((c &&& 0x3) <<< 6)) := by
+      .ok (j + 1, (out.set j (x ||| b64Or2 c)).set (j + 1) (b64Set2 c)) := by
   unfold b64Switch
-  rw [and3, if_neg (by omega), if_neg (by omega), if_pos hi, rd_set_self (by omega), Res.bind_ok,
+  rw [phase_eq, if_neg (by omega), if_neg (by omega), if_pos hi, rd_set_self (by omega), Res.bind_ok,
     wr_ok (by rw [List.length_set]; omega), Res.bind_ok, List.set_set,
     wr_ok (by rw [List.length_set]; omega)]; rfl
 
 theorem sw3 (i c j x : Nat) (out : List Nat) (hi : i % 4 = 3) (hj : j < out.length) :
-    b64Switch i c j (out.set j x) = .ok (j + 1, out.set j (x ||| c)) := by
+    b64Switch i c j (out.set j x) = .ok (j + 1, out.set j (x ||| b64Or3 c)) := by
   unfold b64Switch
-  rw [and3, if_neg (by omega), if_neg (by omega), if_neg (by omega), rd_set_self (by omega), Res.bind_ok,
+  rw [phase_eq, if_neg (by omega), if_neg (by omega), if_neg (by omega), rd_set_self (by omega), Res.bind_ok,
     wr_ok (by rw [List.length_set]; omega), Res.bind_ok, List.set_set]
 
 /-- two symbols: the first output byte is complete, the second started -/
@@ -98,7 +98,7 @@ theorem b64_two (v0 v1 : Nat) (rest : List Nat) (i j : Nat) (out : List Nat) (h0
     (hi : i % 4 = 0) (hj : j + 1 < out.length) :
     b64Loop (Spec.b64Char v0 :: Spec.b64Char v1 :: rest) i j out =
       b64Loop rest (i + 2) (j + 1)
-        ((out.set j (((v0 <<< 2) &&& 0xFF) ||| ((v1 >>> 4) &&& 0x3))).set (j + 1) ((v1 &&& 0xF) <<< 4)) := by
+        ((out.set j (b64Set0 v0 ||| b64Or1 v1)).set (j + 1) (b64Set1 v1)) := by
   rw [b64Loop_alpha _ _ _ _ _ h0, sw0 _ _ _ _ hi (by omega), Res.bind_ok,
     b64Loop_alpha _ _ _ _ _ h1, sw1 _ _ _ _ _ (by omega) hj, Res.bind_ok]
 
@@ -106,8 +106,8 @@ theorem b64_three (v0 v1 v2 : Nat) (rest : List Nat) (i j : Nat) (out : List Nat
     (h2 : v2 < 64) (hi : i % 4 = 0) (hj : j + 2 < out.length) :
     b64Loop (Spec.b64Char v0 :: Spec.b64Char v1 :: Spec.b64Char v2 :: rest) i j out =
       b64Loop rest (i + 3) (j + 2)
-        (((out.set j (((v0 <<< 2) &&& 0xFF) ||| ((v1 >>> 4) &&& 0x3))).set (j + 1)
-          (((v1 &&& 0xF) <<< 4) ||| ((v2 >>> 2) &&& 0xF))).set (j + 2) ((v2 &&& 0x3) <<< 6)) := by
+        (((out.set j (b64Set0 v0 ||| b64Or1 v1)).set (j + 1)
+          (b64Set1 v1 ||| b64Or2 v2)).set (j + 2) (b64Set2 v2)) := by
   rw [b64_two _ _ _ _ _ _ h0 h1 hi (by omega), b64Loop_alpha _ _ _ _ _ h2,
     sw2 _ _ _ _ _ (by omega) (by rw [List.length_set]; omega), Res.bind_ok]
 
@@ -115,8 +115,8 @@ theorem b64_four (v0 v1 v2 v3 : Nat) (rest : List Nat) (i j : Nat) (out : List N
     (h2 : v2 < 64) (h3 : v3 < 64) (hi : i % 4 = 0) (hj : j + 2 < out.length) :
     b64Loop (Spec.b64Char v0 :: Spec.b64Char v1 :: Spec.b64Char v2 :: Spec.b64Char v3 :: rest) i j out =
       b64Loop rest (i + 4) (j + 3)
-        (((out.set j (((v0 <<< 2) &&& 0xFF) ||| ((v1 >>> 4) &&& 0x3))).set (j + 1)
-          (((v1 &&& 0xF) <<< 4) ||| ((v2 >>> 2) &&& 0xF))).set (j + 2) (((v2 &&& 0x3) <<< 6) ||| v3)) := by
+        (((out.set j (b64Set0 v0 ||| b64Or1 v1)).set (j + 1)
+          (b64Set1 v1 ||| b64Or2 v2)).set (j + 2) (b64Set2 v2 ||| b64Or3 v3)) := by
   rw [b64_three _ _ _ _ _ _ _ h0 h1 h2 hi hj, b64Loop_alpha _ _ _ _ _ h3,
     sw3 _ _ _ _ _ (by omega) (by simp only [List.length_set]; omega), Res.bind_ok]
 
@@ -248,7 +248,7 @@ theorem b64Switch_ok (i c j : Nat) (out : List Nat) (hj : j = 3 * (i / 4) + (i %
     ∃ j' out', b64Switch i c j out = .ok (j', out') ∧ out'.length = out.length ∧
       j' = 3 * ((i + 1) / 4) + ((i + 1) % 4 - 1) := by
   unfold b64Switch
-  rw [and3]
+  rw [phase_eq]
   by_cases h0 : i % 4 = 0
   · rw [if_pos h0, wr_ok (by omega)]
     exact ⟨_, _, rfl, by rw [List.length_set], by omega⟩
